@@ -367,7 +367,11 @@ func TestC05BodySoup(t *testing.T) {
 		}
 		rec("", 0)
 	}
-	for _, g := range bodyGrammars {
+	for gi, g := range bodyGrammars {
+		depth := depth
+		if gi >= 2 && depth > 3 {
+			depth = 3 // (the deeper sweep for the two grammars with the most structure: AVC and LOGIN)
+		}
 		var rec func(body string, d int)
 		rec = func(body string, d int) {
 			for _, typ := range g.types {
